@@ -56,7 +56,12 @@ type c10Case struct {
 	Warm       bool   `json:"warm"`
 	Global     bool   `json:"global"`
 	Log        bool   `json:"log"`
+	// Enums (stress only): every message type also has a long repeated field of an enum that all types of its package
+	// share - a sub-schema that is referred to, not owned, by each of them
+	Enums bool `json:"enums"`
 }
+
+var c10WithEnums bool
 
 // buildGraphTypes makes one proto file per package with a message per type:
 //
@@ -114,7 +119,22 @@ func buildGraphTypes(graph map[string]c10Type) (map[string]protoreflect.MessageD
 				}
 				msg.Field = append(msg.Field, fdp)
 			}
+			if c10WithEnums {
+				msg.Field = append(msg.Field, &descriptorpb.FieldDescriptorProto{
+					Name: proto.String("shades"), JsonName: proto.String("shades"), Number: proto.Int32(100),
+					Type:     descriptorpb.FieldDescriptorProto_TYPE_ENUM.Enum(),
+					TypeName: proto.String("." + p + ".Shade"),
+					Label:    descriptorpb.FieldDescriptorProto_LABEL_REPEATED.Enum(),
+				})
+			}
 			fd.MessageType = append(fd.MessageType, msg)
+		}
+		if c10WithEnums {
+			fd.EnumType = append(fd.EnumType, &descriptorpb.EnumDescriptorProto{Name: proto.String("Shade"), Value: []*descriptorpb.EnumValueDescriptorProto{
+				{Name: proto.String("SHADE_UNSPECIFIED"), Number: proto.Int32(0)},
+				{Name: proto.String("SHADE_DARK"), Number: proto.Int32(1)},
+				{Name: proto.String("SHADE_LIGHT"), Number: proto.Int32(2)},
+			}})
 		}
 		for d := range deps {
 			fd.Dependency = append(fd.Dependency, d)
@@ -181,6 +201,11 @@ func populate(md protoreflect.MessageDescriptor, depth int, tag string) *dynamic
 		switch {
 		case f.Kind() == protoreflect.StringKind:
 			m.Set(f, protoreflect.ValueOfString(tag+"-"+string(md.Name())))
+		case f.Kind() == protoreflect.EnumKind && f.IsList():
+			l := m.Mutable(f).List()
+			for k := 0; k < 400; k++ {
+				l.Append(protoreflect.ValueOfEnum(protoreflect.EnumNumber(1 + k%2)))
+			}
 		case f.Kind() == protoreflect.MessageKind && depth > 0:
 			if f.IsList() {
 				l := m.Mutable(f).List()
@@ -473,6 +498,8 @@ func c10Stress(raw json.RawMessage) *Out {
 		return &Out{Skip: "bad case: " + err.Error()}
 	}
 	out := &Out{Nontrivial: true, Key: fmt.Sprintf("stress-%d-%v-%v-%d", c.Seed, c.Warm, c.Global, c.Goroutines)}
+	c10WithEnums = c.Enums
+	defer func() { c10WithEnums = false }()
 	types, err := buildGraphTypes(c.Graph)
 	if err != nil {
 		return &Out{Skip: "cannot build types: " + err.Error()}
